@@ -41,7 +41,7 @@ type c07Prop struct {
 
 func genC07(c *Ctx) error {
 	c.ShardSize = 30
-	c.Notes["rule"] = "one token chaincode instance A lives through the whole history; every proposal is run on A, on a fresh instance B created for that proposal over the same committed state, and on A again, with the same transaction id and timestamp; the three (status, message, payload bytes, write-set, event) are compared. Histories of 30-50 proposals: Init with one of two configurations (different robot), committed or simulated and dropped; token operations through executeTasks (emit, transfer, setFee with known / unknown currency, setFeeAddress, setRate, setLimits, buyToken, buyBack - right and wrong senders and amounts), committed or dropped, some in one task list of several tasks; queries (metadata, predictFee, balanceOf, allowedBalanceOf; also of an address the access-control service black-lists and clears between proposals); batched submissions whose proposal carries a trace parent in the transient map while each simulating peer's decorators add a different span of their own (the pending record is ledger data); probes which robot certificate the instance accepts; swaps begun in dropped simulations followed by an empty batchExecute (whose reply must not remember them); the cancellation of an open multi-swap sent with a timestamp before and with one after its deadline, both long past on the machine's own clock (the two replies must differ). Non-trivial: >= 3 dropped simulations that would have changed the metadata and >= 5 committed operations."
+	c.Notes["rule"] = "one token chaincode instance A lives through the whole history; every proposal is run on A, on a fresh instance B created for that proposal over the same committed state, and on A again, with the same transaction id and timestamp; the three (status, message, payload bytes, write-set, event) are compared. Histories of 30-50 proposals: Init with one of two configurations (different robot), committed or simulated and dropped; token operations through executeTasks (emit, transfer, setFee with known / unknown currency, setFeeAddress, setRate, setLimits, buyToken, buyBack - right and wrong senders and amounts), committed or dropped, some in one task list of several tasks; queries (metadata, predictFee, balanceOf, allowedBalanceOf; also of an address the access-control service black-lists and clears between proposals); batched submissions whose proposal carries a trace parent in the transient map while each simulating peer's decorators add a different span of their own (the pending record is ledger data); probes which robot certificate the instance accepts; signed submissions sent to the same process under a second chaincode name (simulated and dropped); swaps begun in dropped simulations followed by an empty batchExecute (whose reply must not remember them); the cancellation of an open multi-swap sent with a timestamp before and with one after its deadline, both long past on the machine's own clock (the two replies must differ). Non-trivial: >= 3 dropped simulations that would have changed the metadata and >= 5 committed operations."
 	n := c.N(60, 1000)
 	for i := 0; i < n; i++ {
 		if err := c07Case(c); err != nil {
@@ -179,6 +179,24 @@ func c07Case(c *Ctx) error {
 	}
 	msID, msBegun, msAt := "", false, int64(0)
 	for k := 30 + rng.Intn(21); k > 0; k-- {
+		if rng.Intn(14) == 0 {
+			// the same process serves the package under a second committed name: a proposal naming that chaincode,
+			// signed for that name (simulated and dropped; its verdict is the proposal's, not an earlier one's)
+			alias := []string{"tt2", "TT", "tt"}[rng.Intn(3)]
+			cw.nonce++
+			req := BuildRequest("script", "", alias, "tt", []string{"put,ka,v"}, strconv.FormatUint(cw.nonce, 10), users[rng.Intn(3)].Members, nil, nil)
+			ch.CCName = alias
+			ra, dA, dB, dA2, err := run3(c07Prop{creator: w.Client.Creator, args: strArgs("script", req)})
+			ch.CCName = ""
+			if err != nil {
+				return err
+			}
+			steps = append(steps, fmt.Sprintf("SQuery %d %d %d", dA, dB, dA2))
+			jsteps = append(jsteps, map[string]interface{}{"submission_under_chaincode_name": alias, "status": ra.Status, "message": ra.Message})
+			c.Count(fmt.Sprintf("submission_under_name_%s_status_%d", alias, ra.Status))
+			dropped++
+			continue
+		}
 		switch r := rng.Intn(100); {
 		case r < 8:
 			if err := doInit(1+rng.Intn(2), rng.Intn(10) < 6); err != nil {
